@@ -194,6 +194,13 @@ def scripted():
             ins = list(H.INPUTS[g])
             h += [_op("LoadStr", s, ins[(k + s) % len(ins)]), _op("LoadFile", s, ins[(2 * k + s) % len(ins)])]
     out.append(("three memoizing grammars", h))
+    # the witnesses of the listed findings (reproduced in every run while the defects exist)
+    out.append(("nested load with a global repository, repeated",
+                [_op("NewMM", 1, "ent.grepo"), _op("LoadFile", 1, "valid2"), _op("LoadFile", 1, "valid2"),
+                 _op("LoadFile", 1, "valid2"), _op("LoadStr", 1, "valid2"), _op("LoadFile", 1, "valid")]))
+    out.append(("failing multi-file load with user classes, then valid loads",
+                [_op("NewMM", 1, "imp.classes"), _op("LoadFile", 1, "unknown"), _op("LoadFile", 1, "valid"),
+                 _op("LoadStr", 1, "noimp"), _op("LoadFile", 1, "unknown"), _op("LoadFile", 1, "noimp")]))
     return out
 
 
@@ -249,16 +256,41 @@ def execute(ex, ops):
     return events, dumps
 
 
+CHUNK = 250     # traces per TLC run (single worker each, up to tlc.NCPU runs side by side)
+
+
 def validate(work, traces, pool_path, expect=False, tag="t"):
-    tp = _write(work, f"traces_{tag}.json", traces)
-    r = tlc.model_check("TraceHistory", env={"VT_TRACES": tp, "VT_POOL": pool_path,
-                                             "VT_MODE": "expect" if expect else "check"},
-                        workers=1, timeout=3600)
-    tlc.require_ok(r, "trace validation")
-    got = {x["tid"]: x for x in r.results("TRACE")}
+    """TLC decides for every trace how many of its events are steps of History!Next.
+    Returns (TLCResult with summed counters, {tid (1-based): {reached, len}})."""
+    chunks = [traces[k:k + CHUNK] for k in range(0, len(traces), CHUNK)] or [[]]
+
+    def one(job):
+        k, chunk = job
+        tp = _write(work, f"traces_{tag}_{k}.json", chunk)
+        r = tlc.model_check("TraceHistory", env={"VT_TRACES": tp, "VT_POOL": pool_path,
+                                                 "VT_MODE": "expect" if expect else "check"},
+                            workers=1, timeout=3600)
+        tlc.require_ok(r, "trace validation")
+        return r
+
+    if len(chunks) == 1:
+        rs = [one((0, chunks[0]))]
+    else:
+        with ThreadPoolExecutor(max_workers=tlc.NCPU) as ex:
+            rs = list(ex.map(one, enumerate(chunks)))
+    got = {}
+    for k, r in enumerate(rs):
+        for x in r.results("TRACE"):
+            got[k * CHUNK + x["tid"]] = x
     if len(got) != len(traces):
         raise tlc.MachineryError("trace validation did not report every trace")
-    return r, got
+    total = rs[0]
+    for r in rs[1:]:
+        total.distinct += r.distinct
+        total.generated += r.generated
+        total.wall_s = max(total.wall_s, r.wall_s)
+        total.prints += r.prints
+    return total, got
 
 
 def expected_of(work, ops_events, pool_path):
@@ -276,16 +308,9 @@ def _brief(events, upto=None):
 
 
 def _nontrivial(events):
+    """>= 3 loads, at least one of which comes after an earlier load (so history could matter)."""
     loads = [e for e in events if e["name"] in ("LoadStr", "LoadFile")]
-    seen, later = set(), 0
-    for e in events:
-        if e["name"] in ("LoadStr", "LoadFile"):
-            if e["slot"] in seen or len(seen) > 0:
-                later += 1
-            seen.add(e["slot"])
-        elif e["name"] == "NewMM" and seen:
-            later += 0
-    return len(loads) >= 3 and later >= 1
+    return len(loads) >= 3
 
 
 def _subsets(devs):
